@@ -138,7 +138,7 @@ class MoveProp(core.Prop):
         for i, cell in enumerate(cells):
             for aidx in cell:
                 ag = w.agent_list[aidx]
-                w.grid._internal[i // cols, i % cols][ag.id] = ag
+                w.grid[i // cols, i % cols][ag.id] = ag
 
     def cases(self, tier, rng):
         quick = tier == "quick"
